@@ -547,6 +547,7 @@ fn run_fuzz_campaign(id: &str, target: &str, seed: u64) -> Result<(Value, Vec<(V
     }
     let corpus_files = std::fs::read_dir(&corpus).map(|r| r.count()).unwrap_or(0);
     let mut crashes = vec![];
+    let mut notes: Vec<String> = vec![];
     if let Ok(rd) = std::fs::read_dir(&artifacts) {
         for e in rd.flatten() {
             let name = e.file_name().to_string_lossy().to_string();
@@ -558,7 +559,16 @@ fn run_fuzz_campaign(id: &str, target: &str, seed: u64) -> Result<(Value, Vec<(V
             std::env::set_var("RV_FUZZ_STRICT", "1");
             let msg = match rv::fuzzapi::run_target(target, &bytes) {
                 Err(m) => m,
-                Ok(()) => format!("libFuzzer reported {} but the in-process replay passes (timeout/oom or non-deterministic)", name),
+                Ok(()) => {
+                    // does not reproduce through the oracle: a sanitizer report is a finding (memory safety is part of
+                    // C06's statement), anything else is inconclusive
+                    let asan = (0..procs).any(|j| std::fs::read_to_string(format!("{}/fuzz-{}-{}-{}.log", logdir, target, id, j)).map(|t| t.contains("AddressSanitizer")).unwrap_or(false));
+                    if !asan {
+                        notes.push(format!("libFuzzer wrote {} but the in-process replay through the oracle passes and no sanitizer report was logged", name));
+                        continue;
+                    }
+                    format!("VIOLATION property={} sig=sanitizer-report :: AddressSanitizer report while running {} (see {}/fuzz-{}-{}-*.log)", id, name, logdir, target, id)
+                }
             };
             if !msg.contains(&format!("property={}", id)) && msg.contains("VIOLATION property=") {
                 continue; // belongs to the sibling property of a shared target
@@ -571,6 +581,9 @@ fn run_fuzz_campaign(id: &str, target: &str, seed: u64) -> Result<(Value, Vec<(V
             crashes.push((v, path));
         }
     }
-    let report = json!({"target": target, "executions": execs, "processes": procs, "seconds": secs, "seed_corpus_files": seeds, "final_corpus_files": corpus_files, "crashes": crashes.len()});
+    let report = json!({"target": target, "executions": execs, "processes": procs, "seconds": secs, "seed_corpus_files": seeds, "final_corpus_files": corpus_files, "crashes": crashes.len(), "unreproduced_artifacts": notes});
+    if execs < 1_000 {
+        return Err(format!("campaign executed only {} inputs (see {}/fuzz-{}-{}-0.log)", execs, logdir, target, id));
+    }
     Ok((report, crashes))
 }
